@@ -101,6 +101,12 @@ def execute(conc, workdir, idx, beh):
     if data is not None:
         with open(path, "wb") as f:
             f.write(data)
+    stale = path + ".tmp"
+    if os.path.exists(stale):
+        os.unlink(stale)
+    if beh[0].get("out") == "stale-tmp":          # Preload!StaleTmp: a temporary left by an earlier killed run, longer than anything written now
+        with open(stale, "wb") as f:
+            f.write(conc.to_bytes({"present": True, "nl": True, "lines": [["FOR2"], ["HASH", "TXT"], ["FOR2"], ["FOR2"], ["FOR2"]]}))
     recs = [{"k": "init", "disk": init}]
     drift = []
     raw = [data]
@@ -118,11 +124,12 @@ def execute(conc, workdir, idx, beh):
             recs.append({"k": st["c"], "new": ab, "exit": rc})
             if ab != st["disk"] or (rc != st["exit"]):
                 drift.append("%s: impl-spec %s/%d, code %s/%d" % (st["c"], st["disk"], st["exit"], ab, rc))
-    try:
-        if os.path.exists(path):
-            os.unlink(path)
-    except OSError:
-        pass
+    for leftover in (path, stale):
+        try:
+            if os.path.exists(leftover):
+                os.unlink(leftover)
+        except OSError:
+            pass
     return recs, drift, raw
 
 
@@ -212,7 +219,7 @@ def run_pipeline(prop, tier, seed):
     mine = {"C18": ("enable", "status"), "C19": ("disable",)}[prop]
     nontrivial = set()
     for bi, (recs, drift, raw) in enumerate(results):
-        key = json.dumps(behs[bi][0]["disk"]) + "|" + ",".join(s["c"] for s in behs[bi][1:])
+        key = json.dumps(behs[bi][0]["disk"]) + "|" + behs[bi][0].get("out", "") + "|" + ",".join(s["c"] for s in behs[bi][1:])
         if any(s["c"] in mine for s in behs[bi][1:]) and behs[bi][0]["disk"]["lines"]:
             nontrivial.add(key)
     rep.cov["traces_validated_against_impl"] = len(behs)
